@@ -1,9 +1,11 @@
 package schemasim
 
 import (
+	"bytes"
 	"context"
 	"encoding/json"
 	"fmt"
+	"io"
 	"strings"
 
 	"perkeep.org/pkg/schema"
@@ -498,6 +500,35 @@ func execTree(rc *harness.RunCtx, p *harness.Plan, cfg *TreeCfg) *harness.Outcom
 	out.ShapeKey = fmt.Sprintf("t|%s|%d|l%d|n%d|h%d|o%d|e%d|%s", cfg.RootType, len(want), ts.levels, ts.nested, ts.holes, ts.offsets, ts.loose, ks.String())
 	out.Nontrivial = len(want) > 0 && len(ops) > 0
 	out.Sample = map[string]any{"mode": "tree (input generation)", "tree": describe, "reads": len(ops)}
+	// The parts as pkg/schema hands them out ((*Blob).ByteParts, PartsSize),
+	// put into a new file map the way an uploader does for content the
+	// server already has (pkg/client fileMapFromDuplicate): the new schema
+	// blob denotes the same bytes.
+	if fresh == nil {
+		if raw, ok := st.Get(root); ok {
+			if sb, perr := schema.BlobFromReader(mustRef(root), bytes.NewReader(raw)); perr == nil {
+				fm := schema.NewFileMap("copy.bin")
+				if perr := fm.PopulateParts(sb.PartsSize(), sb.ByteParts()); perr == nil {
+					js := fm.Blob().JSON()
+					cref := refOf([]byte(js))
+					st.Put(cref, []byte(js))
+					cr, rerr := schema.NewFileReader(ctx, cleanView(st), mustRef(cref))
+					var got []byte
+					if rerr == nil {
+						got, rerr = io.ReadAll(cr)
+					}
+					switch {
+					case rerr != nil:
+						fresh, freshOp = &finding{class: "copied-parts-unreadable", detail: fmt.Sprintf("a file map built from this blob's ByteParts() and PartsSize() cannot be read back: %v", rerr)}, len(ops)
+					case !bytes.Equal(got, want):
+						fresh, freshOp = &finding{class: "copied-parts-wrong-bytes", detail: fmt.Sprintf("a file map built from this blob's ByteParts() and PartsSize() denotes other bytes: %d bytes, first difference at %d of %d", len(got), firstDiff(got, want), len(want))}, len(ops)
+					default:
+						reach(out, "tree-parts-copied-into-a-new-file-map", 1)
+					}
+				}
+			}
+		}
+	}
 	if fresh != nil {
 		return viol(out, "tree", fresh.class, fmt.Sprintf("%s; op #%d: %s", describe, freshOp, fresh.detail), freshOp)
 	}
